@@ -429,6 +429,7 @@ struct Collect {
     casts: Vec<(usize, usize, usize, String)>, // expr start, expr end, whole end, type text
     blocks_open: Vec<usize>,
     enum_loops: Vec<EnumLoop>,
+    plain_loops: Vec<(usize, usize, usize, usize, usize, usize)>, // for_start, pat_start, pat_end, expr_start, expr_end, body_open_end
     compound: Vec<(usize, usize, usize, usize, usize, String)>,
     rename_from: String,
     rename_hits: Vec<(usize, usize, bool)>, // start, end, is_shorthand_field
@@ -475,6 +476,13 @@ impl<'ast> Visit<'ast> for Collect {
     }
     fn visit_expr_for_loop(&mut self, e: &'ast syn::ExprForLoop) {
         self.loops.push(("for".into(), br(e.body.brace_token.span.open()).0, Some(br(e.expr.span()).0)));
+        if let (syn::Pat::Ident(_), syn::Expr::MethodCall(mc)) = (&*e.pat, &*e.expr) {
+            if mc.method != "enumerate" {
+                let (ps, pe) = br(e.pat.span());
+                let (es, ee) = br(e.expr.span());
+                self.plain_loops.push((br(e.for_token.span).0, ps, pe, es, ee, br(e.body.brace_token.span.open()).1));
+            }
+        }
         if let (syn::Pat::Tuple(pt), syn::Expr::MethodCall(mc)) = (&*e.pat, &*e.expr) {
             if pt.elems.len() == 2 && mc.method == "enumerate" && mc.args.is_empty() {
                 let (ps, pe) = br(e.pat.span());
@@ -1073,6 +1081,16 @@ fn finish(
                     cx.count("R10b(for (i, x) in ITER.enumerate() -> let items = ITER.collect(); for i in 0..items.len() { let x = items[i]; .. })");
                 }
             }
+        }
+    }
+    // R10c: `for x in ITER` over a method-call iterator -> collect + index loop
+    if req["r10c"].as_bool().unwrap_or(false) {
+        for (k, (fs, ps, pe, es, ee, bo)) in col.plain_loops.iter().enumerate() {
+            let x_txt = src[*ps..*pe].to_string();
+            cx.rep(*fs, *es, &format!("let vx_seq_{} = ", k));
+            cx.ins(*ee, &format!(".collect(); for vx_i_{k} in 0..vx_seq_{k}.len()", k = k), false);
+            cx.ins(*bo, &format!(" let {} = vx_seq_{}[vx_i_{}];", x_txt, k, k), false);
+            cx.count("R10c(for x in ITER -> let items = ITER.collect(); for i in 0..items.len() { let x = items[i]; .. })");
         }
     }
     // explicit token substitutions
